@@ -190,6 +190,12 @@ def inline_base_entry_points(ctx, prog):
     for ci in list(prog.classes.values()):
         if not (ci.mod.name.startswith('scared.distinguishers') or ci.mod.name == 'scared.ttest'):
             continue
+        fa = ci.methods.get('_accumulate')
+        if fa is not None:
+            # kernel selection moved into a shared helper method (`self._run_fastest_kernel(*args)`): read as part of _accumulate
+            h = _inl.inline_in_place(prog, fa, skip={'_define_lut_func', '_initialize_accumulators'})
+            if h:
+                ctx.note(f'{fa.key}: helpers inlined before analysis: {h}')
         for m in ('_compute', 'compute', '_compute_metric'):
             f = ci.methods.get(m)
             if f is None:
